@@ -114,7 +114,7 @@ def run(module, cfg=None, cfg_text=None, *, workers=16, env=None, simulate=None,
             f.write(cfg_text)
     else:
         cfgpath = os.path.join(SPEC, cfg or (module + '.cfg'))
-    jopts = ['-XX:+UseParallelGC', '-Xmx6g']
+    jopts = ['-XX:+UseParallelGC', '-Xmx6g', '-Djava.io.tmpdir=' + meta]
     if dfs:
         jopts.append('-Dtlc2.tool.queue.IStateQueue=StateDeque')
     cmd = ['java'] + jopts + ['-cp', JAR, 'tlc2.TLC', '-workers', str(workers), '-metadir', meta,
